@@ -200,8 +200,22 @@ def run(ctx: Ctx) -> None:
         return None
 
     pre_ = walk(gd, {"closed": False}, cl_closed, blocked={parse[0]})
-    early_ = [n for n in pre_ if n is gd.exit or (n.kind == "stmt" and isinstance(n.ast, ast.Return))]
-    ctx.ob("C10.R1", disp, "on an open connection no message leaves the dispatcher before it was parsed (unknown ids and bad payloads leave through the error handler only)", not early_, f"normal exit without parsing at {[(n.lineno, n.text(40)) for n in early_ if n is not gd.exit][:3]}: messages handled there never clear the pending ping nor cancel the pong deadline")
+
+    def _acts(n: Node) -> bool:
+        """Does more than logging: calls package / unknown code or stores to an attribute."""
+        if n.ast is None or n.kind not in ("stmt", "cond"):
+            return False
+        if any(res.callees(disp, c).kind != "lib" for c in node_calls(n)):
+            return True
+        return n.kind == "stmt" and isinstance(n.ast, (ast.Assign, ast.AugAssign, ast.AnnAssign)) and any(isinstance(x, ast.Attribute) and isinstance(x.ctx, ast.Store) for x in walk_own(n.ast))
+
+    early_ = []
+    for a_ in [n for n in pre_ if _acts(n)]:
+        after_ = walk(gd, {"closed": False}, cl_closed, start=a_, blocked={parse[0]})
+        outs = [n for n in after_ if n is gd.exit or (n.kind == "stmt" and isinstance(n.ast, ast.Return))]
+        if outs:
+            early_.append((a_, outs[0]))
+    ctx.ob("C10.R1", disp, "on an open connection no message is acted on before it was parsed (a path that only logs and returns is the unknown-type path, judged by C12)", not early_, f"{[(a.lineno, a.text(40)) for a, o in early_][:3]} then a normal exit without parsing: messages handled there never clear the pending ping nor cancel the pong deadline")
 
     # ping sent iff flag set
     gt = cfg_of(ctx, tick)
